@@ -5,7 +5,7 @@ import ast
 
 from sa.astx import NotConst, call_attr, call_name, const_eval, lincmp, src, walk_local
 from sa.selftest import Mutant, Silent
-from sa.props._lib_j import all_paths, asserted_is, edge_asserts, is_self_attr, no_exc, node_calls, normal_exits, params, resolve
+from sa.props._lib_j import body_always_entered, run_sections, all_paths, asserted_is, edge_asserts, is_self_attr, no_exc, node_calls, normal_exits, params, resolve
 
 PROPERTY = "C53"
 LOG = "python/logfile.py"
@@ -23,6 +23,7 @@ EXPLANATION = (
     "re-read from tell() on every open and advanced only by len(data); an existing file is opened without truncation and "
     "positioned at its end. Not decided: the byte-exact suffix property, multi-byte size accounting (size counts characters: "
     "under-estimates only), DailyLogFile."
+    "Every anchor function is also checked to be entered on every call (no memoising/wrapping decorator, duplicate definition or rebinding). "
 )
 ASSUMPTIONS = ["os.rename is atomic; glob returns every rotated file", "LogFile is used by one thread at a time (threadable.synchronize)"]
 
@@ -78,21 +79,31 @@ def _order_after(call, state):
     return "?"
 
 
-def check(ctx):
+def _s_listlogs(ctx, S):
     # ================= listLogs: ascending integers ============================================================
     f = ctx.func(LOG, "LogFile.listLogs")
     g = ctx.cfg(f)
     q = QL + ".listLogs"
     rets = [x for x in normal_exits(g)]
-    ctx.need(rets and all(isinstance(g.node(x).ast, ast.Return) and isinstance(g.node(x).ast.value, ast.Name) for x in rets), "listLogs returns a list variable")
-    res = g.node(rets[0]).ast.value.id
+    def ret_list(x):
+        """(list variable, 'name' | 'sorted' | 'sorted-desc') for `return v` / `return sorted(v)`."""
+        st = g.node(x).ast
+        v = st.value if isinstance(st, ast.Return) else None
+        if isinstance(v, ast.Name):
+            return v.id, "name"
+        if isinstance(v, ast.Call) and call_name(v) == "sorted" and len(v.args) == 1 and isinstance(v.args[0], ast.Name) and not any(k.arg == "key" for k in v.keywords):
+            return v.args[0].id, ("sorted-desc" if any(k.arg == "reverse" and src(k.value) == "True" for k in v.keywords) else "sorted")
+        return None
+    ctx.need(rets and all(ret_list(x) for x in rets) and len({ret_list(x)[0] for x in rets}) == 1, "listLogs returns a list variable (or sorted(<it>))")
+    res = ret_list(rets[0])[0]
     sorts = [n for n, c in node_calls(g, lambda c: call_name(c) == res + ".sort" and not c.keywords)]
     muts = [n for n, c in node_calls(g, lambda c: isinstance(c.func, ast.Attribute) and src(c.func.value) == res and call_attr(c) in ("append", "extend", "insert", "reverse", "sort", "pop", "remove"))
             if n not in sorts]
     for x in rets:
         w = g.must_precede(sorts, [x], exc=False)
         late = [m for m in muts if any(g.path([s], [m], edge_ok=no_exc, strict=True) for s in sorts)]
-        ctx.check(bool(sorts) and w is None and not late, "order/listLogs-ascending", q,
+        how = ret_list(x)[1]
+        ctx.check(how == "sorted" or (how == "name" and bool(sorts) and w is None and not late), "order/listLogs-ascending", q,
                   "listLogs() can return identifiers that are not sorted ascending (no sort() dominating the return, or the list is modified after "
                   "sorting): rotate() then renames in the wrong order and overwrites retained logs", witness=g.describe(w))
     apps = [c for n, c in node_calls(g, lambda c: call_name(c) == res + ".append")]
@@ -105,11 +116,18 @@ def check(ctx):
     globs = [c for c in walk_local(f) if isinstance(c, ast.Call) and call_name(c) == "glob.glob"]
     ctx.check(len(globs) == 1 and _render(globs[0].args[0], {}) == "P.*", "order/listLogs-sees-every-rotated-file", q, "listLogs() does not glob '<path>.*'")
 
+
+
+def _s_rotate(ctx, S):
     # ================= rotate ==================================================================================
     f = ctx.func(LOG, "LogFile.rotate")
     g = ctx.cfg(f)
     q = QL + ".rotate"
     loops = [n for n in g.nodes if n.kind == "for" and g.reachable(n.id)]
+    if not loops:
+        ctx.violation("shift/every-file-moved-or-removed", ctx.construct(q, "loop body"), "rotate() does not shift the older files at all: renaming the current "
+                      "file to path.1 overwrites the previous path.1")
+        return
     ctx.need(len(loops) == 1, "single for loop in LogFile.rotate")
     lp = loops[0]
     it = lp.ast.iter
@@ -204,6 +222,9 @@ def check(ctx):
                   "files are closed / renamed / removed although the directory or the file is not writable: rotation fails half-way and reorders or "
                   "loses data")
 
+
+
+def _s_write(ctx, S):
     # ================= write / shouldRotate / size ==============================================================
     f = ctx.func(LOG, "BaseLogFile.write")
     g = ctx.cfg(f)
@@ -230,19 +251,35 @@ def check(ctx):
     enc = [n for n in walk_local(f) if isinstance(n, ast.Assign) and src(n.targets[0]) == data and "encode(" in src(n.value)]
     ctx.check(bool(enc) and "utf" in src(enc[0].value).lower(), "write/text-encoded", q, "text is not encoded as UTF-8 before writing")
 
+
+
+def _s_should_rotate(ctx, S):
     f = ctx.func(LOG, "LogFile.shouldRotate")
     q = QL + ".shouldRotate"
-    rets = [n for n in walk_local(f) if isinstance(n, ast.Return)]
-    ctx.need(len(rets) == 1 and rets[0].value is not None, "single return in shouldRotate")
-    v = rets[0].value
-    conj = v.values if isinstance(v, ast.BoolOp) and isinstance(v.op, ast.And) else [v]
-    forms = [lincmp(c) for c in conj]
-    implied = any(fm is not None and dict(fm[0]) == {"self.size": 1, "self.rotateLength": -1} and fm[1] >= 0 for fm in forms)
-    ctx.check(implied, "boundary/rotated-file-at-least-rotateLength", q,
-              f"shouldRotate() can be true while size < rotateLength ({src(v)}): a file shorter than the rotation length is rotated")
-    ctx.check(any(src(c) == "self.rotateLength" for c in conj) or any(isinstance(c, ast.Compare) and "self.rotateLength is not None" in src(c) for c in conj),
-              "boundary/rotation-disabled-when-no-length", q, "a rotateLength of None/0 does not disable rotation (comparison with None raises / rotates on every write)")
+    g = ctx.cfg(f)
+    want = {"self.size": 1, "self.rotateLength": -1}
+    nret = 0
+    for x in normal_exits(g):
+        st = g.node(x).ast
+        v = st.value if isinstance(st, ast.Return) else None
+        if v is None or (isinstance(v, ast.Constant) and not v.value):
+            continue        # answers "do not rotate"
+        nret += 1
+        conj = list(v.values) if isinstance(v, ast.BoolOp) and isinstance(v.op, ast.And) else [v]
+        forms = [lincmp(c) for c in conj] + [lincmp(t, negate=(lab == "F")) for t, lab in edge_asserts(g, x)]
+        implied = any(fm is not None and dict(fm[0]) == want and fm[1] >= 0 for fm in forms)
+        ctx.check(implied, "boundary/rotated-file-at-least-rotateLength", ctx.construct(q, st),
+                  f"shouldRotate() can be true while size < rotateLength ({src(v)}): a file shorter than the rotation length is rotated")
+        truthy_len = any(src(c) == "self.rotateLength" for c in conj) or any(src(t) == "self.rotateLength" and lab == "T" for t, lab in edge_asserts(g, x)) or \
+            any("self.rotateLength is not None" in src(c) for c in conj) or any(src(t) == "self.rotateLength is not None" and lab == "T" for t, lab in edge_asserts(g, x)) or \
+            any(src(t) == "self.rotateLength is None" and lab == "F" for t, lab in edge_asserts(g, x))
+        ctx.check(truthy_len, "boundary/rotation-disabled-when-no-length", ctx.construct(q, st),
+                  "a rotateLength of None/0 does not disable rotation (comparison with None raises / rotates on every write)")
+    ctx.check(nret >= 1, "boundary/rotates-at-all", q, "shouldRotate() never answers true: the log is never rotated")
 
+
+
+def _s_size(ctx, S):
     f = ctx.func(LOG, "LogFile.write")
     g = ctx.cfg(f)
     q = QL + ".write"
@@ -270,6 +307,9 @@ def check(ctx):
             if isinstance(n, (ast.Assign, ast.AugAssign)) and any(is_self_attr(t, "size") for t in (n.targets if isinstance(n, ast.Assign) else [n.target])):
                 ctx.check(m.name in ("_openFile", "write"), "size/who-may-write", ctx.construct(f"{QL}.{m.name}", n), "size is modified outside _openFile/write")
 
+
+
+def _s_open(ctx, S):
     f = ctx.func(LOG, "BaseLogFile._openFile")
     g = ctx.cfg(f)
     q = QB + "._openFile"
@@ -296,6 +336,18 @@ def check(ctx):
     ctx.check(w is None, "open/always-opens", q, "_openFile can return without a file", witness=g.describe(w))
 
 
+def _s_body(ctx, S):
+    body_always_entered(ctx, LOG, ["LogFile.listLogs", "LogFile.rotate", "LogFile.shouldRotate", "LogFile.write", "LogFile._openFile", "BaseLogFile.write", "BaseLogFile._openFile"],
+                        "anchor/body-entered-on-every-call", "twisted.python.logfile",
+                        "listLogs()/shouldRotate() must look at the directory / the size on every call: a cached list of rotated files makes rotate() rename over "
+                        "files it does not know about")
+
+
+def check(ctx):
+    run_sections(ctx, [("listLogs", _s_listlogs), ("rotate", _s_rotate), ("BaseLogFile.write", _s_write), ("shouldRotate", _s_should_rotate), ("size", _s_size),
+                       ("open", _s_open), ("body-entered", _s_body)])
+
+
 MUTANTS = [
     Mutant("drop-reverse", LOG, "        logs = self.listLogs()\n        logs.reverse()\n", "        logs = self.listLogs()\n", expect_rule="order/rotate-highest-first"),
     Mutant("rename-before-close", LOG, "        self._file.close()\n        os.rename(self.path, \"%s.1\" % self.path)\n", "        os.rename(self.path, \"%s.1\" % self.path)\n        self._file.close()\n",
@@ -319,6 +371,8 @@ MUTANTS = [
     Mutant("remove-without-limit", LOG, "            if self.maxRotatedFiles is not None and i >= self.maxRotatedFiles:", "            if self.maxRotatedFiles is None or i >= self.maxRotatedFiles:",
            expect_rule="retention/"),
     Mutant("current-to-wrong-slot", LOG, "        os.rename(self.path, \"%s.1\" % self.path)", "        os.rename(self.path, \"%s.0\" % self.path)", expect_rule="sequence/current-becomes-1"),
+    Mutant("rotated-file-list-cached", LOG, "    def listLogs(self):\n", "    @functools.lru_cache(maxsize=None)\n    def listLogs(self):\n",
+           more=[(LOG, "import glob\n", "import functools\nimport glob\n")], expect_rule="anchor/body-entered-on-every-call"),
     Mutant("sort-before-last-append", LOG, "            except ValueError:\n                pass\n        result.sort()\n        return result", "            except ValueError:\n                pass\n        return result",
            expect_rule="order/listLogs-ascending"),
     Mutant("access-test-dropped", LOG, "        if not (os.access(self.directory, os.W_OK) and os.access(self.path, os.W_OK)):\n            return\n        logs = self.listLogs()",
@@ -330,6 +384,9 @@ SILENT = [
     Silent("retention-test-rewritten", LOG, "            if self.maxRotatedFiles is not None and i >= self.maxRotatedFiles:", "            if self.maxRotatedFiles is not None and not i < self.maxRotatedFiles:"),
     Silent("boundary-operands-swapped", LOG, "        return self.rotateLength and self.size >= self.rotateLength", "        return self.rotateLength and self.rotateLength <= self.size"),
     Silent("fstring-names", LOG, "                os.rename(\"%s.%d\" % (self.path, i), \"%s.%d\" % (self.path, i + 1))", "                os.rename(f\"{self.path}.{i}\", f\"{self.path}.{i + 1}\")"),
+    Silent("listLogs-returns-sorted-copy", LOG, "        result.sort()\n        return result", "        return sorted(result)"),
+    Silent("shouldRotate-as-if-chain", LOG, "        return self.rotateLength and self.size >= self.rotateLength",
+           "        if not self.rotateLength:\n            return False\n        return self.size >= self.rotateLength"),
     Silent("branches-swapped", LOG, "            if self.maxRotatedFiles is not None and i >= self.maxRotatedFiles:\n                os.remove(\"%s.%d\" % (self.path, i))\n            else:\n                os.rename(\"%s.%d\" % (self.path, i), \"%s.%d\" % (self.path, i + 1))",
            "            if self.maxRotatedFiles is None or i < self.maxRotatedFiles:\n                os.rename(\"%s.%d\" % (self.path, i), \"%s.%d\" % (self.path, i + 1))\n            else:\n                os.remove(\"%s.%d\" % (self.path, i))"),
 ]
